@@ -24,7 +24,10 @@ from ..core import impl_call, err_kind, fr, num_close
 NAME = "irvballot"
 RULE = ("ballot cases: EXHAUSTIVE over every partial ranking (every length 0..n, every order) of n candidates, "
         "n = 1..4 in the quick tier and 1..5 in the thorough tier, x every (winner, loser) pair with winner != loser "
-        "x every eliminated set not containing them (plus winner == loser for n <= 4); plus random 'raw' ballots "
+        "x every eliminated set not containing them (plus winner == loser for n <= 4), with names A..E; the same sweep "
+        "for n = 2..4 with numeric identifiers of mixed width that are substrings of one another ('1','10','2','21') "
+        "and, in the thorough tier, with word identifiers ('Ann','Joann','Jo','An'); random name pools of both kinds "
+        "in the raw-ballot and file streams; plus random 'raw' ballots "
         "(ties, rank 0, gaps, candidates not in the contest) for the model correspondence only. "
         "raire cases: random RAIRE files (1-3 contests, 2-5 candidates, repeated ballot ids across and within "
         "contests, partial rankings, interleaved rows, occasionally write-ins / duplicate preferences / malformed "
@@ -35,6 +38,11 @@ EXHAUSTIVE = {"quick": False, "thorough": False}
 
 CID = "c1"
 NAMES = ["A", "B", "C", "D", "E"]
+# candidate identifiers are opaque strings: numeric ids of mixed width and names that are prefixes / suffixes / infixes
+# of one another (as in real exports: '4' and '47', 'Ann' and 'Joann')
+NUMS = ["1", "10", "2", "21", "102"]
+WORDS = ["Ann", "Joann", "Jo", "An", "Anna"]
+POOLS = [NAMES, NAMES, NUMS, NUMS, WORDS, ["P", "Q", "R", "S", "T"], ["7", "17", "71", "171", "3"]]
 
 
 # ------------------------------------------------------------------------------------------------
@@ -147,7 +155,7 @@ def gen_file(rng, tier):
     for ci in range(ncon):
         cid = f"c{ci + 1}"
         nc = rng.choice([2, 3, 3, 4, 4, 4, 5] if tier == "thorough" else [2, 3, 3, 4, 4, 4, 4, 5])
-        pool = NAMES if rng.chance(0.7) else ["P", "Q", "R", "S", "T"]
+        pool = rng.choice(POOLS)
         cands = pool[:nc]
         if rng.chance(0.3):
             cands = list(cands); rng.shuffle(cands)
@@ -210,7 +218,7 @@ def gen_file(rng, tier):
 
 def gen_raw(rng):
     nc = rng.choice([2, 3, 3, 4, 5])
-    cands = NAMES[:nc]
+    cands = rng.choice(POOLS)[:nc]
     onb = [c for c in cands + (["X"] if rng.chance(0.3) else []) if rng.chance(0.7)]
     rng.shuffle(onb)
     mode = rng.choice(["ties", "zero", "gaps", "free"])
@@ -236,8 +244,11 @@ def gen_raw(rng):
 def gen(rng, n, tier):
     count = 0
     top = 4 if tier == "quick" else 5
-    for nc in range(1, top + 1):
-        cands = NAMES[:nc]
+    sweeps = [NAMES[:nc] for nc in range(1, top + 1)] + [NUMS[:nc] for nc in range(2, 5)]
+    if tier != "quick":
+        sweeps += [WORDS[:nc] for nc in range(2, 5)]
+    for cands in sweeps:
+        nc = len(cands)
         for w in cands:
             for l in cands:
                 if w == l and nc > 4:
